@@ -64,7 +64,16 @@ Targets15 == {Base15} \cup Edits(Base15) \cup KindEdits(Base15)
               \cup (IF Bound >= 2 THEN UNION {Edits(t) : t \in Edits(Base15)} ELSE {})
 
 IsKindChange(b, t) == t \in KindEdits(b)
+(* several kind changes in one branch, at nested depths and in every key order *)
+Deep15 == Single("p", Mk3("c", Mk2("k", L(<<I("1"), I("2")>>), "keep", I("1")), "a", Single("q", I("1")), "z", L(<<S("a")>>)))
+DeepTargets15 ==
+  { Single("p", Mk3("c", Mk2("k", kv, "keep", I("1")), "a", av, "z", zv))
+      : kv \in {L(<<I("1"), I("2")>>), I("5"), Single("m", I("1"))},
+        av \in {Single("q", I("1")), I("0"), L(<<I("1")>>)},
+        zv \in {L(<<S("a")>>), S("done"), Single("m", I("2"))} }
 CasesC15(lazy) == {[base |-> Base15, target |-> t] : t \in Targets15}
+            \cup {[base |-> Deep15, target |-> t] : t \in DeepTargets15}
+            \cup {[base |-> t, target |-> Deep15] : t \in DeepTargets15}
             \cup {[base |-> t, target |-> Base15] : t \in Edits(Base15) \cup KindEdits(Base15)}
 
 Unrelated == Mk2("q", I("1"), "l", L(<<S("u")>>))
@@ -86,7 +95,7 @@ Emit(cs) ==
     [] Family = "C15" ->
          LET lay == DiffDocModel(cs.target, cs.base) IN
          PrintT("@@V " \o ToJson([family |-> Family, base |-> cs.base, target |-> cs.target, modellayer |-> lay,
-                                  modelok |-> DiffOK(cs.base, cs.target, lay), kindchange |-> cs.target \in KindEdits(Base15) \/ cs.base \in KindEdits(Base15)]))
+                                  modelok |-> DiffOK(cs.base, cs.target, lay), kindchange |-> cs.target \in KindEdits(Base15) \/ cs.base \in KindEdits(Base15) \/ cs.base = Deep15 \/ cs.target = Deep15]))
     [] Family = "C16" ->
          LET r == FoldIntersect(cs.inputs[1], Tail(cs.inputs)) IN
          PrintT("@@V " \o ToJson([family |-> Family, inputs |-> cs.inputs, modelout |-> r,
